@@ -11,7 +11,9 @@ CFG = dict(
          "numbers / wrong handles / duplicates / already released addresses, releaseByHandle with and without sequence number, "
          "garbageCollect, updateBlock+queryBlock round trip); odd cases (client stream): the REAL ipamClient on the C19 in-memory "
          "CAS backend, one host owning 2-4 blocks of 4-8 addresses, IP reservations, 8-21 calls of AutoAssign / AssignIP / "
-         "ReleaseIPs (multi-block, options as above) / ReleaseByHandle / GarbageCollectColdIPs; the clock is virtual "
+         "ReleaseIPs (multi-block, options as above) / ReleaseByHandle / GarbageCollectColdIPs; 45% of the client cases are 'deletion' histories "
+         "(StrictAffinity, no AutoAllocateBlocks, 2 blocks of 2-4 addresses, mostly cooldown > 0) that add ReleaseAffinity(block, mustBeEmpty) so that "
+         "blocks lose their affinity, are deleted when emptied and are re-created by AssignIP; the clock is virtual "
          "(testing/synctest) and advances by 0, 1ns, fractions of a second, exactly the cooldown, cooldown+1ns, ... between "
          "operations; IPCooldownSeconds in {-1,0,1,2,5,30}, occasionally changed mid-history.  Non-trivial = at least one "
          "effective release and (an address handed out again after a release, or an address seen in cooldown).  "
@@ -26,8 +28,9 @@ CFG = dict(
     assumptions=["a compare-and-swap block write is atomic, so the history of a stored block under any number of clients is a sequence of "
                  "transactions gc;op;write (C19: c19_step_is_one_cas_transformation); the history theorems quantify over all such sequences "
                  "with an arbitrary clock reading and cooldown setting per transaction",
-                 "client stream domain: one IPv4 pool, one host that owns every block of the pool (affinities claimed up front), "
-                 "reservations are single addresses, handles always given, no MaxAlloc, no Windows reservations",
+                 "client stream domain: one IPv4 pool, one host that owns every block of the pool at the start (affinities claimed up front); "
+                 "histories with ReleaseAffinity run with StrictAffinity and without AutoAllocateBlocks (so the only way a block comes back is "
+                 "AssignIP claiming it); reservations are single addresses, handles always given, no MaxAlloc, no Windows reservations",
                  "release/releaseByHandle read the clock twice (stamp, then GC); the model uses one reading (exact under the virtual clock)",
                  "sequence numbers and times are unbounded naturals (uint64 / int64 nanoseconds do not wrap)"],
 )
